@@ -324,6 +324,27 @@ Theorem subgrid_affine_spec :
 Proof. exact sg_row_spec. Qed.
 Print Assumptions subgrid_affine_spec.
 
+(* (19') Field of view: slice(corner, corner+size, spacing) on an axis of
+   length n selects exactly the image indices corner + k*spacing below
+   min(corner+size, n) - the k-th voxel of the block is image voxel
+   corner + k*spacing (what subgrid_affine_spec needs as `start`, `step`). *)
+Theorem fov_slice_spec : forall n start stop step, 0 < step -> 0 <= start ->
+  let l := slice_indices n start stop step in
+  (forall k, (k < length l)%nat -> nth k l 0 = start + Z.of_nat k * step) /\
+  Forall (fun i => start <= i < Z.min stop n) l /\
+  (forall k, start + Z.of_nat k * step < Z.min stop n -> (k < length l)%nat).
+Proof. exact slice_indices_spec. Qed.
+Print Assumptions fov_slice_spec.
+
+(* ideal_spacing: when the loop stops, the sub-sampled block has at most
+   npoints non-negative voxels and no spacing factor decreased. *)
+Theorem ideal_spacing_spec : forall fuel data n0 n1 n2 np s0 s1 s2 r0 r1 r2,
+  ideal_spacing_loop fuel data n0 n1 n2 np s0 s1 s2 = Some (r0, r1, r2) ->
+  count_sub data n0 n1 n2 r0 r1 r2 <= np /\ s0 <= r0 /\ s1 <= r1 /\ s2 <= r2 /\
+  (r0 - s0) + (r1 - s1) + (r2 - s2) <= Z.of_nat fuel.
+Proof. exact ideal_spacing_post. Qed.
+Print Assumptions ideal_spacing_spec.
+
 (* (20) Optimisation clause, bookkeeping part.  `gen_optimize_binding` is
    translated from HistogramRegistration.optimize on every run: it says whether
    the optimiser's return value is written back into the transform
